@@ -236,6 +236,21 @@ def run_botp(ctx, c):
         chk("botpOCRARand(%s)" % suite, o.read(), exp.encode() + b"\0")
         r = x.call("botpOCRAVerify", cstr(x, exp), cstr(x, suite), K, len(key), x.buf(q), len(q), x.buf(ctr) if f["c"] else None, x.buf(p) if p else None, x.buf(s) if s else None, t)
         if r: raise Fail("botpOCRAVerify rejects the right password (%s)" % suite)
+        # stepped use on one state: questions of changing length, counter incremented after every password
+        S = x.out(x.call("botpOCRA_keep", ret="z"))
+        if not x.call("botpOCRAStart", S, cstr(x, suite), K, len(key)):
+            raise Fail("botpOCRAStart rejected %s" % suite)
+        x.call("botpOCRAStepS", S, x.buf(ctr) if f["c"] else None, x.buf(p) if p else None, x.buf(s) if s else None, ret="v")
+        cur = ctr
+        for i in range(3):
+            ql = max(4, min(2 * f["q_max"], (c["qlen"] * (5 * i + 1) + 11 * i) % (2 * f["q_max"] + 1)))
+            qi = (q * (ql // len(q) + 1))[:ql]
+            o = x.out(f["digit"] + 1)
+            x.call("botpOCRAStepR", o, x.buf(qi), ql, t, S, ret="v")
+            exp = RO.ocra(suite, key, qi, cur if f["c"] else None, p, s, t if f["ts"] else None)
+            chk("botpOCRAStepR #%d (%s, q_len=%d)" % (i, suite, ql), o.read(), exp.encode() + b"\0")
+            if f["c"]:
+                cur = RO.ctr_next(cur)
         nopt = sum(1 for z in (f["c"], f["p_len"], f["s_len"], f["ts"]) if z)
         ctx.cls("ocra_opt%d" % nopt, "ocra_digit%d" % f["digit"])
         if nopt >= 2:
